@@ -1,48 +1,177 @@
 import GcArena.Proofs.Events
+import GcArena.Proofs.Size
 /-!
   Mutator operations are silent: no op other than a collection call or dropping the arena emits a
   `dropped` / `freed` event, destructs a value or releases a block.
 -/
 namespace GcArena
 
-/-- `c'` emitted nothing relative to `c` and keeps every allocation with its liveness. -/
+/-- `c'` emitted nothing relative to `c` and keeps every allocation with its liveness; the only
+    new cells are fresh, live objects at the ids from `c.heap.size` on (allocation). -/
 structure Quiet (c c' : Ctx) : Prop where
   log : c'.log = c.log
   phase : c'.phase = c.phase
   keep : ∀ i o, c.heap.get i = some o → ∃ o', c'.heap.get i = some o' ∧ o'.live = o.live
+  sizeLe : c.heap.size ≤ c'.heap.size
+  noNew : ∀ i o', c'.heap.get i = some o' →
+    (∃ o, c.heap.get i = some o) ∨ (c.heap.size ≤ i ∧ o'.live = true)
+  noGap : ∀ i, c.heap.size ≤ i → i < c'.heap.size → ∃ o', c'.heap.get i = some o'
 
-theorem Quiet.refl (c : Ctx) : Quiet c c := ⟨rfl, rfl, fun _ o ho => ⟨o, ho, rfl⟩⟩
+/-- The common case: no allocation at all. -/
+theorem Quiet.ofSame {c c' : Ctx} (log : c'.log = c.log) (phase : c'.phase = c.phase)
+    (keep : ∀ i o, c.heap.get i = some o → ∃ o', c'.heap.get i = some o' ∧ o'.live = o.live)
+    (size : c'.heap.size = c.heap.size) (noNew : ∀ i o', c'.heap.get i = some o' → ∃ o, c.heap.get i = some o) :
+    Quiet c c' :=
+  ⟨log, phase, keep, by omega, fun i o' h => Or.inl (noNew i o' h), fun i h1 h2 => by omega⟩
 
-theorem Quiet.trans {a b c : Ctx} (h1 : Quiet a b) (h2 : Quiet b c) : Quiet a c :=
-  ⟨h2.log.trans h1.log, h2.phase.trans h1.phase, fun i o ho => by
+theorem Quiet.refl (c : Ctx) : Quiet c c :=
+  Quiet.ofSame rfl rfl (fun _ o ho => ⟨o, ho, rfl⟩) rfl (fun _ o' ho' => ⟨o', ho'⟩)
+
+theorem Quiet.trans {a b c : Ctx} (h1 : Quiet a b) (h2 : Quiet b c) : Quiet a c := by
+  refine ⟨h2.log.trans h1.log, h2.phase.trans h1.phase, ?_, Nat.le_trans h1.sizeLe h2.sizeLe, ?_, ?_⟩
+  · intro i o ho
     obtain ⟨o1, ho1, hl1⟩ := h1.keep i o ho
     obtain ⟨o2, ho2, hl2⟩ := h2.keep i o1 ho1
-    exact ⟨o2, ho2, hl2.trans hl1⟩⟩
+    exact ⟨o2, ho2, hl2.trans hl1⟩
+  · intro i o2 ho2
+    rcases h2.noNew i o2 ho2 with ⟨o1, ho1⟩ | ⟨hsz, hl⟩
+    · rcases h1.noNew i o1 ho1 with ⟨o, ho⟩ | ⟨hsz, hl⟩
+      · exact Or.inl ⟨o, ho⟩
+      · obtain ⟨o2', ho2', hl2⟩ := h2.keep i o1 ho1
+        rw [ho2] at ho2'; cases ho2'
+        exact Or.inr ⟨hsz, hl2.trans hl⟩
+    · exact Or.inr ⟨Nat.le_trans h1.sizeLe hsz, hl⟩
+  · intro i hlo hhi
+    by_cases hb : i < b.heap.size
+    · obtain ⟨o1, ho1⟩ := h1.noGap i hlo hb
+      obtain ⟨o2, ho2, _⟩ := h2.keep i o1 ho1
+      exact ⟨o2, ho2⟩
+    · exact h2.noGap i (by omega) hhi
 
-theorem MarkMono.quiet {c c' : Ctx} (m : MarkMono c c') : Quiet c c' :=
-  ⟨m.log, m.phase, fun i o ho => by obtain ⟨o', ho', _, _, hl, _⟩ := m.mono i o ho; exact ⟨o', ho', hl⟩⟩
+theorem MarkMono.quiet {c c' : Ctx} (m : MarkMono c c') (hs : c'.heap.size = c.heap.size) : Quiet c c' :=
+  Quiet.ofSame m.log m.phase
+    (fun i o ho => by obtain ⟨o', ho', _, _, hl, _⟩ := m.mono i o ho; exact ⟨o', ho', hl⟩) hs m.noNew
 
 theorem quiet_of_heap_log {c c' : Ctx} (hh : c'.heap = c.heap) (hl : c'.log = c.log)
     (hp : c'.phase = c.phase := by first | rfl | simp) : Quiet c c' :=
-  ⟨hl, hp, fun i o ho => ⟨o, by rw [hh]; exact ho, rfl⟩⟩
+  Quiet.ofSame hl hp (fun i o ho => ⟨o, by rw [hh]; exact ho, rfl⟩) (by rw [hh])
+    (fun i o' ho' => ⟨o', by rw [← hh]; exact ho'⟩)
 
 theorem quiet_setSlot (c : Ctx) (p i : Nat) (v : Slot) : Quiet c (Arena.setSlot c p i v) := by
-  unfold Arena.setSlot
-  cases hg : c.heap.get p with
-  | none => exact quiet_of_heap_log (by simp) (by simp)
-  | some o =>
-    refine ⟨rfl, rfl, fun j oj hoj => ?_⟩
-    by_cases hj : j = p
-    · subst hj; rw [hg] at hoj; cases hoj
-      exact ⟨{ o with slots := o.slots.set i v }, by simp, rfl⟩
-    · exact ⟨oj, by simp [hj, hoj], rfl⟩
+  refine Quiet.ofSame ?_ ?_ ?_ (setSlot_size c p i v) ?_
+  all_goals unfold Arena.setSlot
+  · split <;> simp
+  · split <;> simp
+  · intro j oj hoj
+    cases hg : c.heap.get p with
+    | none => exact ⟨oj, by simpa using hoj, rfl⟩
+    | some o =>
+      simp only
+      by_cases hj : j = p
+      · subst hj; rw [hg] at hoj; cases hoj
+        exact ⟨{ oj with slots := oj.slots.set i v }, by simp, rfl⟩
+      · exact ⟨oj, by simp [hj, hoj], rfl⟩
+  · intro j oj' hoj'
+    cases hg : c.heap.get p with
+    | none => rw [hg] at hoj'; exact ⟨oj', by simpa using hoj'⟩
+    | some o =>
+      rw [hg] at hoj'
+      simp only [Ctx.setObj_get] at hoj'
+      by_cases hj : j = p
+      · subst hj; exact ⟨o, hg⟩
+      · simp only [hj, if_false] at hoj'; exact ⟨oj', hoj'⟩
 
-theorem quiet_link (c : Ctx) (o : Obj) : Quiet c (c.link o).1 := by
-  refine ⟨rfl, rfl, fun j oj hoj => ⟨oj, ?_, rfl⟩⟩
-  have : j ≠ c.heap.fresh := by intro he; rw [he, Heap.get_fresh] at hoj; cases hoj
-  simp [Ctx.link, Heap.get_set, this, hoj]
+theorem quiet_link (c : Ctx) (o : Obj) (hl : o.live = true) : Quiet c (c.link o).1 := by
+  have hget : ∀ j, (c.link o).1.heap.get j = if j = c.heap.fresh then some o else c.heap.get j := by
+    intro j; simp [Ctx.link, Heap.get_set]
+  have hsize : (c.link o).1.heap.size = c.heap.size + 1 := by
+    simp only [Ctx.link]
+    rw [Heap.size_set]; simp [Heap.fresh]
+  refine ⟨rfl, rfl, ?_, by omega, ?_, ?_⟩
+  · intro j oj hoj
+    have : j ≠ c.heap.fresh := by intro he; rw [he, Heap.get_fresh] at hoj; cases hoj
+    exact ⟨oj, by rw [hget]; simp [this, hoj], rfl⟩
+  · intro j oj' hoj'
+    rw [hget] at hoj'
+    by_cases hj : j = c.heap.fresh
+    · subst hj; simp at hoj'; subst hoj'
+      exact Or.inr ⟨Nat.le_refl _, hl⟩
+    · simp only [hj, if_false] at hoj'; exact Or.inl ⟨oj', hoj'⟩
+  · intro j hlo hhi
+    have : j = c.heap.fresh := by simp only [Heap.fresh]; omega
+    subst this
+    exact ⟨o, by rw [hget]; simp⟩
 
 theorem quiet_push (a : Arena) (p : Ptr) : (a.push p).ctx = a.ctx := (a.push_spec p).1
+
+theorem makeGrayAgain_log (c : Ctx) (t : Nat) : (c.makeGrayAgain t).log = c.log := by
+  unfold Ctx.makeGrayAgain
+  split
+  · simp
+  · simp only; split <;> simp
+
+theorem makeGrayAgain_phase (c : Ctx) (t : Nat) : (c.makeGrayAgain t).phase = c.phase := by
+  unfold Ctx.makeGrayAgain
+  split
+  · simp
+  · simp only; split <;> simp
+
+theorem backwardBarrier_none_def (c : Ctx) (p : Nat) :
+    c.backwardBarrier p none =
+      if c.phase = .mark then
+        (match c.heap.get p with
+         | none => c.fail .dangling
+         | some po => if po.color = .black then c.makeGrayAgain p else c)
+      else c := by
+  unfold Ctx.backwardBarrier
+  rfl
+
+/-- The parent-only backward barrier is quiet in any state (it only recolours / queues). -/
+theorem quiet_backwardBarrier_none (c : Ctx) (p : Nat) : Quiet c (c.backwardBarrier p none) := by
+  refine Quiet.ofSame ?_ ?_ ?_ (Ctx.backwardBarrier_size c p none) ?_
+  all_goals rw [backwardBarrier_none_def]
+  · split
+    · split
+      · simp
+      · split
+        · exact makeGrayAgain_log c p
+        · rfl
+    · rfl
+  · split
+    · split
+      · simp
+      · split
+        · exact makeGrayAgain_phase c p
+        · rfl
+    · rfl
+  · intro j oj hoj
+    split
+    · split
+      · exact ⟨oj, by simpa using hoj, rfl⟩
+      · rename_i po hpo
+        split
+        · unfold Ctx.makeGrayAgain
+          simp only [hpo]
+          by_cases hj : j = p
+          · subst hj; rw [hpo] at hoj; cases hoj
+            exact ⟨{ oj with color := .gray }, by split <;> simp, rfl⟩
+          · exact ⟨oj, by split <;> simp [hj, hoj], rfl⟩
+        · exact ⟨oj, hoj, rfl⟩
+    · exact ⟨oj, hoj, rfl⟩
+  · intro j oj' hoj'
+    split at hoj'
+    · split at hoj'
+      · exact ⟨oj', by simpa using hoj'⟩
+      · rename_i po hpo
+        split at hoj'
+        · unfold Ctx.makeGrayAgain at hoj'
+          simp only [hpo] at hoj'
+          by_cases hj : j = p
+          · subst hj; exact ⟨po, hpo⟩
+          · refine ⟨oj', ?_⟩
+            split at hoj' <;> simpa [hj] using hoj'
+        · exact ⟨oj', hoj'⟩
+    · exact ⟨oj', hoj'⟩
 
 def Op.isMutator : Op → Bool
   | .collect .. => false
@@ -77,7 +206,7 @@ theorem stepBody_quiet {a : Arena} (h : Inv a) (fin : Bool) (op : Op) (hop : op.
       · exact rf
       · split
         · exact rf
-        · simp only [quiet_push]; exact quiet_link _ _
+        · simp only [quiet_push]; exact quiet_link _ _ rfl
   | readRoot i =>
     simp only [Arena.stepBody]
     split
@@ -134,7 +263,7 @@ theorem stepBody_quiet {a : Arena} (h : Inv a) (fin : Bool) (op : Op) (hop : op.
       cases p with
       | strong t =>
         simp only
-        exact (resurrect_spec h.cinv hmark hpo).2.1.quiet
+        exact (resurrect_spec h.cinv hmark hpo).2.1.quiet (Ctx.resurrect_size _ _)
       | weak t =>
         simp only
         obtain ⟨o, ho, _⟩ := hpo
@@ -143,7 +272,7 @@ theorem stepBody_quiet {a : Arena} (h : Inv a) (fin : Bool) (op : Op) (hop : op.
         · rename_i hl
           have hs : Safe a.ctx t := ⟨o, ho, hl, fun hp => by rw [hmark] at hp; cases hp⟩
           simp only [quiet_push]
-          exact (resurrect_spec h.cinv hmark hs).2.1.quiet
+          exact (resurrect_spec h.cinv hmark hs).2.1.quiet (Ctx.resurrect_size _ _)
         · exact rf
   | barrier b =>
     simp only [Arena.stepBody]
@@ -162,7 +291,7 @@ theorem stepBody_quiet {a : Arena} (h : Inv a) (fin : Bool) (op : Op) (hop : op.
           · exact rf
           · rename_i hg
             have hp : a.holds (.strong p) = true := by simpa using hg
-            exact (backwardBarrier_spec h.cinv (alloc_s p hp) none (fun _ hc => by cases hc)).2.1.mm.quiet
+            exact (backwardBarrier_spec h.cinv (alloc_s p hp) none (fun _ hc => by cases hc)).2.1.mm.quiet (Ctx.backwardBarrier_size _ _ _)
         | some c =>
           simp only
           split
@@ -170,14 +299,14 @@ theorem stepBody_quiet {a : Arena} (h : Inv a) (fin : Bool) (op : Op) (hop : op.
           · rename_i hg
             simp only [Bool.or_eq_true, Bool.not_eq_true', not_or, Bool.not_eq_false] at hg
             exact (backwardBarrier_spec h.cinv (alloc_s p hg.1) (some c)
-              (fun ch hc => by cases hc; exact alloc_s c hg.2)).2.1.mm.quiet
+              (fun ch hc => by cases hc; exact alloc_s c hg.2)).2.1.mm.quiet (Ctx.backwardBarrier_size _ _ _)
       | bbw p c =>
         simp only
         split
         · exact rf
         · rename_i hg
           simp only [Bool.or_eq_true, Bool.not_eq_true', not_or, Bool.not_eq_false] at hg
-          exact (backwardBarrierWeak_spec h.cinv (alloc_s p hg.1) (alloc_w c hg.2)).2.1.mm.quiet
+          exact (backwardBarrierWeak_spec h.cinv (alloc_s p hg.1) (alloc_w c hg.2)).2.1.mm.quiet (Ctx.backwardBarrierWeak_size _ _ _)
       | fb p c =>
         cases p with
         | none =>
@@ -187,7 +316,7 @@ theorem stepBody_quiet {a : Arena} (h : Inv a) (fin : Bool) (op : Op) (hop : op.
           · rename_i hg
             have hc : a.holds (.strong c) = true := by simpa using hg
             exact (forwardBarrier_spec h.cinv none (fun _ hp => by cases hp)
-              (h.ptrOK_of_holds hc)).2.1.mm.quiet
+              (h.ptrOK_of_holds hc)).2.1.mm.quiet (Ctx.forwardBarrier_size _ _ _)
         | some p =>
           simp only
           split
@@ -195,7 +324,7 @@ theorem stepBody_quiet {a : Arena} (h : Inv a) (fin : Bool) (op : Op) (hop : op.
           · rename_i hg
             simp only [Bool.or_eq_true, Bool.not_eq_true', not_or, Bool.not_eq_false] at hg
             exact (forwardBarrier_spec h.cinv (some p)
-              (fun q hq => by cases hq; exact alloc_s p hg.1) (h.ptrOK_of_holds hg.2)).2.1.mm.quiet
+              (fun q hq => by cases hq; exact alloc_s p hg.1) (h.ptrOK_of_holds hg.2)).2.1.mm.quiet (Ctx.forwardBarrier_size _ _ _)
       | fbw p c =>
         cases p with
         | none =>
@@ -205,7 +334,7 @@ theorem stepBody_quiet {a : Arena} (h : Inv a) (fin : Bool) (op : Op) (hop : op.
           · rename_i hg
             have hc : a.holds (.weak c) = true := by simpa using hg
             exact (forwardBarrierWeak_spec h.cinv none (fun _ hp => by cases hp)
-              (alloc_w c hc)).2.1.mm.quiet
+              (alloc_w c hc)).2.1.mm.quiet (Ctx.forwardBarrierWeak_size _ _ _)
         | some p =>
           simp only
           split
@@ -213,7 +342,7 @@ theorem stepBody_quiet {a : Arena} (h : Inv a) (fin : Bool) (op : Op) (hop : op.
           · rename_i hg
             simp only [Bool.or_eq_true, Bool.not_eq_true', not_or, Bool.not_eq_false] at hg
             exact (forwardBarrierWeak_spec h.cinv (some p)
-              (fun q hq => by cases hq; exact alloc_s p hg.1) (alloc_w c hg.2)).2.1.mm.quiet
+              (fun q hq => by cases hq; exact alloc_s p hg.1) (alloc_w c hg.2)).2.1.mm.quiet (Ctx.forwardBarrierWeak_size _ _ _)
   | store path p i v =>
     simp only [Arena.stepBody]
     split
@@ -223,7 +352,7 @@ theorem stepBody_quiet {a : Arena} (h : Inv a) (fin : Bool) (op : Op) (hop : op.
       have hp : a.holds (.strong p) = true := hg.1.2
       have hbb : Quiet a.ctx (a.ctx.backwardBarrier p none) :=
         (backwardBarrier_spec h.cinv (allocated_of_ptrOK (p := .strong p) (h.ptrOK_of_holds hp)) none
-          (fun _ hc => by cases hc)).2.1.mm.quiet
+          (fun _ hc => by cases hc)).2.1.mm.quiet (Ctx.backwardBarrier_size _ _ _)
       split
       · exact rf
       · split
@@ -238,22 +367,7 @@ theorem stepBody_quiet {a : Arena} (h : Inv a) (fin : Bool) (op : Op) (hop : op.
           | storeThenBarrier =>
             simp only
             refine (quiet_setSlot a.ctx p i v).trans ?_
-            -- the barrier itself is quiet in any state (it only recolours / queues)
-            unfold Ctx.backwardBarrier
-            split
-            · split
-              · exact quiet_of_heap_log (by simp) (by simp)
-              · split
-                · unfold Ctx.makeGrayAgain
-                  rename_i po hpo _
-                  simp only [hpo]
-                  refine ⟨by split <;> simp, by split <;> simp, fun j oj hoj => ?_⟩
-                  by_cases hj : j = p
-                  · subst hj; rw [hpo] at hoj; cases hoj
-                    exact ⟨{ po with color := .gray }, by split <;> simp, rfl⟩
-                  · exact ⟨oj, by split <;> simp [hj, hoj], rfl⟩
-                · exact Quiet.refl _
-            · exact Quiet.refl _
+            exact quiet_backwardBarrier_none _ p
   | rootStore i v =>
     simp only [Arena.stepBody]
     split <;> exact rf
